@@ -6,7 +6,7 @@ import Ecpint.Props.C04
 import Ecpint.Props.C05
 import Ecpint.Props.C06All
 import Ecpint.Props.C07All
-import Ecpint.Props.C08
+import Ecpint.Props.C08All
 import Ecpint.Props.C09All
 import Ecpint.Props.C10
 import Ecpint.Props.C11
